@@ -96,9 +96,9 @@ theorem second_phase_only_unbuffered (p : Point) (t : Tid) (ch : Chan) (bc try_ 
 /-- a receive reports `ok = false` only in a state in which the channel is closed and its buffer is drained:
     the only critical sections that return `recvOK = false` (ChanRecv both phases, chanTryRecv) run with the
     close flag set and `len = 0` -/
-theorem recv_after_close (p : Point) (t : Tid) (ch : Chan) (hinv : ChanInv ch) (b : Bool)
+theorem recv_after_close (p : Point) (t : Tid) (ch : Chan) (hinv : ChanInv ch) (b : Bool) (c' : Cid)
     (hp2 : p.secondPhase = true → ch.cap = 0)
-    (h : (body p t ch).out = .unlock (.recv false) ∨ (body p t ch).out = .unlock (.tryRecv false b) ∧ b = true) :
+    (h : (body p t ch).out = .unlock (.recv c' false) ∨ (body p t ch).out = .unlock (.tryRecv false b) ∧ b = true) :
     ch.closed = true ∧ ch.len = 0 := by
   have hu := hinv.unb_len
   cases p <;> simp only [body] at h
@@ -159,8 +159,8 @@ def recvReady (ch : Chan) : Prop :=
 
 /-- a select (blocking or not) commits a SEND case only if, at that instant, the channel is open and has room
     (buffered) / an armed receiver (unbuffered): `ChanTrySend` reports success only then -/
-theorem select_commits_enabled_send (ch : Chan) (v : Val) (hinv : ChanInv ch) (bc : Bool)
-    (h : (trySendBody ch v).out = .notify (.finish bc (.ret (.trySend true)))) : sendReady ch := by
+theorem select_commits_enabled_send (ch : Chan) (t : Tid) (v : Val) (hinv : ChanInv ch) (bc : Bool)
+    (h : (trySendBody ch t v).out = .notify (.finish bc (.ret (.trySend true)))) : sendReady ch := by
   have hl := hinv.lenle
   unfold trySendBody at h
   unfold sendReady
@@ -189,11 +189,11 @@ example : ∃ sl : Sel, sl.blocking = true ∧ sl.cases = [⟨0, true, 5⟩] :=
   ⟨{ cases := [⟨0, true, 5⟩], blocking := true, sendFirst := true, pass := 0, idx := 0, result := none }, rfl, rfl⟩
 
 example : ChanInv (newChan .current 0) ∧ (Point.recvLock 0 0).secondPhase = false ∧
-    (body (.recvLock 0 0) 0 { newChan .current 0 with closed := true }).out = .unlock (.recv false) := by
+    (body (.recvLock 0 0) 0 { newChan .current 0 with closed := true }).out = .unlock (.recv 0 false) := by
   refine ⟨newChan_inv .current 0, rfl, ?_⟩; decide
 
-example : (trySendBody { newChan .current 1 with } 7).out = .notify (.finish true (.ret (.trySend true))) := by decide
-example : ∃ ok, (tryRecvBody ((newChan .current 1).push 7) ⟨0, 0⟩ true).out = .notify (.finish true (.ret (.tryRecv ok true))) :=
+example : (trySendBody { newChan .current 1 with } 0 7).out = .notify (.finish true (.ret (.trySend true))) := by decide
+example : ∃ ok, (tryRecvBody ((newChan .current 1).push 0 7) ⟨0, 0⟩ true).out = .notify (.finish true (.ret (.tryRecv ok true))) :=
   ⟨true, by decide⟩
 
 /-! ## wake-ups -/
@@ -290,7 +290,7 @@ theorem stall_run : runSched (init .current [0] stallProgs) stallSched = some st
 /-- two receivers on one unbuffered channel and one sender: the sender has returned, 42 sits in the first
     receiver's variable, both receivers sleep in `Cond.Wait`, no thread is runnable -/
 theorem stall_facts :
-    noneRunnable stallState = true ∧ (stallState.thread 2).res = [.sent] ∧ (stallState.thread 0).rv = [42] ∧
+    noneRunnable stallState = true ∧ (stallState.thread 2).res = [.sent 0 42] ∧ (stallState.thread 0).rv = [42] ∧
     (stallState.thread 0).res = [] ∧ (stallState.thread 0).waiting = true ∧ (stallState.thread 1).waiting = true := by
   decide
 
@@ -305,7 +305,7 @@ theorem no_stuck_pair_counterexample : ¬ NoStuckPair .current := by
     some receive with `ok = true` or still sits in a buffer -/
 def okValues (s : State) : List Val :=
   s.threads.flatMap fun th => th.res.filterMap fun
-    | .recv v true => some v
+    | .recv _ v true => some v
     | .sel _ v true _ => some v
     | _ => none
 
@@ -322,7 +322,7 @@ theorem loss_run : runSched (init .current [0] lossProgs) lossSched = some lossS
 
 /-- send then close on an unbuffered channel: the send completed, the receiver returns `(42, ok = false)` -/
 theorem loss_facts :
-    allDone lossState = true ∧ (lossState.thread 1).res = [.sent, .closed] ∧ (lossState.thread 0).res = [.recv 42 false] := by
+    allDone lossState = true ∧ (lossState.thread 1).res = [.sent 0 42, .closed] ∧ (lossState.thread 0).res = [.recv 0 42 false] := by
   decide
 
 theorem no_loss_counterexample : ¬ NoLoss .current := by
@@ -343,7 +343,7 @@ theorem stall_fixed_run : runSched (init .fixed [0] stallProgs) stallSched = som
     done; the state is not `stuck` (the second receiver waits legitimately: there is no second send) -/
 theorem stall_fixed_facts :
     stuck stallStateFixed = false ∧ (stallStateFixed.thread 0).pc = .done ∧
-    (stallStateFixed.thread 0).res = [.recv 42 true] ∧ (stallStateFixed.thread 2).res = [.sent] ∧
+    (stallStateFixed.thread 0).res = [.recv 0 42 true] ∧ (stallStateFixed.thread 2).res = [.sent 0 42] ∧
     (stallStateFixed.thread 1).res = [] := by
   decide
 
@@ -353,8 +353,8 @@ theorem loss_fixed_run : runSched (init .fixed [0] lossProgs) lossSched = some l
 /-- the schedule of `no_loss_counterexample` no longer loses the value: `(42, ok = true)` although the channel was
     closed between the hand-off and the receiver's wake-up -/
 theorem loss_fixed_facts :
-    allDone lossStateFixed = true ∧ (lossStateFixed.thread 0).res = [.recv 42 true] ∧
-    (lossStateFixed.thread 1).res = [.sent, .closed] ∧
+    allDone lossStateFixed = true ∧ (lossStateFixed.thread 0).res = [.recv 0 42 true] ∧
+    (lossStateFixed.thread 1).res = [.sent 0 42, .closed] ∧
     (∀ ch ∈ lossStateFixed.chans, ∀ v ∈ ch.sent, v ∈ okValues lossStateFixed ∨ v ∈ ch.contents) := by
   decide
 
@@ -362,8 +362,8 @@ theorem loss_fixed_facts :
     the receiver armed the channel — and no longer depends on the close flag; `ok = false` only if NO hand-off
     happened and the channel is closed -/
 theorem recv_ok_iff_served_fixed (ch : Chan) (c : Cid) (seq : Nat) (hf : ch.fixed = true) :
-    (ch.recvseq ≠ seq → (recv2Loop ch c false seq).out = .unlock (.recv true)) ∧
-    ((recv2Loop ch c false seq).out = .unlock (.recv false) → ch.recvseq = seq ∧ ch.closed = true) ∧
+    (ch.recvseq ≠ seq → (recv2Loop ch c false seq).out = .unlock (.recv c true)) ∧
+    ((recv2Loop ch c false seq).out = .unlock (.recv c false) → ch.recvseq = seq ∧ ch.closed = true) ∧
     (ch.recvseq ≠ seq → (recv2Loop ch c true seq).out = .unlock (.tryRecv true true)) := by
   unfold recv2Loop
   simp only [hf, if_true]
@@ -377,7 +377,7 @@ example : ({ newChan .fixed 0 with recvseq := 1 } : Chan).fixed = true ∧ ({ ne
 
 /-- a hand-off increments the counter of a fixed channel (and `recvseq_mono`: nothing ever decreases it), so a receiver
     that armed at `seq` and was served sees `recvseq > seq` for ever after -/
-theorem handoff_bumps_fixed (ch : Chan) (v : Val) (hf : ch.fixed = true) : (ch.handOff v).1.recvseq = ch.recvseq + 1 := by
+theorem handoff_bumps_fixed (ch : Chan) (t : Tid) (v : Val) (hf : ch.fixed = true) : (ch.handOff t v).1.recvseq = ch.recvseq + 1 := by
   unfold Chan.handOff Chan.bump
   split <;> simp [hf]
 
